@@ -224,6 +224,8 @@ def make_x(c, d):
         x = x.astype(d['idt'])
     if d.get('amp10'):
         x = x * 10.0 ** d['amp10']
+    if d.get('i', 0) % 7 in (5, 6) and d.get('cont', 'array') == 'array':
+        x = gen.variant(x, gen.LAYOUTS[d['i'] % 7 - 5])       # handed over as a non-contiguous view / read-only array
     return x
 
 
